@@ -30,4 +30,11 @@ fn adaptors_and_terminals() {
     z.par_sort();
     assert_eq!(z, vec![1, 2, 3]);
     assert_eq!((0..4usize).par_bridge().count(), 4);
+    let mut c = vec![0usize; 7];
+    c.par_chunks_mut(3).enumerate().for_each(|(k, ch)| ch.iter_mut().for_each(|x| *x = k + 1));
+    assert_eq!(c, vec![1, 1, 1, 2, 2, 2, 3]);
+    let mut e = vec![0usize; 7];
+    e.par_chunks_exact_mut(3).enumerate().for_each(|(k, ch)| ch.iter_mut().for_each(|x| *x = k + 1));
+    assert_eq!(e, vec![1, 1, 1, 2, 2, 2, 0]);
+    assert_eq!(vec![1, 2, 3, 4, 5].par_chunks_exact(2).map(|c| c.len()).collect::<Vec<_>>(), vec![2, 2]);
 }
